@@ -105,6 +105,9 @@ func genConfig(rt *rapid.T, p *Profile) Config {
 		if p.StallStreams && len(cfg.Stream) == 0 {
 			cfg.Stream = append(cfg.Stream, rapid.IntRange(0, nc-1).Draw(rt, "theStream"))
 		}
+		if len(cfg.Stream) > 0 && rapid.IntRange(0, 2).Draw(rt, "denyStream") == 0 {
+			cfg.DenyStream = rapid.SampledFrom([][]int{{1}, {2}, {0}, {4}}).Draw(rt, "denyStreamPeers")
+		}
 		if len(cfg.Stream) > 0 && (p.StallStreams || rapid.IntRange(0, 2).Draw(rt, "flowControl") == 0) {
 			cfg.StreamWindow = rapid.SampledFrom([]int{64, 256, 512, 1024, 4096}).Draw(rt, "streamWindow")
 		}
